@@ -225,9 +225,14 @@ CHECKS = {
              "logs what arrives. TLC validates every call against the contract: character input arrives trimmed, "
              "implied sizes equal the section extents, omitted arguments arrive as the C++ defaults, results and "
              "output arguments come back exactly (strings padded or truncated to the declared length, allocatable "
-             "results with the exact length). The same driver source is used for every configuration.",
-        note="Trusted as C02, plus gfortran 12. Not yet covered: language c subject library, struct rows in Fortran, "
-             "std::vector and char** rows.",
+             "results with the exact length). The same driver source is used for every configuration. Besides the "
+             "fixed library (structs by value/pointer/reference, std::vector in/inout/out-allocatable, a pointer result "
+             "with a declared extent, a rank-2 array with dimension(size(x,2),size(x,1)), templates mixing T with "
+             "ordinary parameters) the libraries come from the TLA+ grammar: the wide member printed by LibGenPairs "
+             "(every pairing of two parameter rows, every result row with every parameter row; with and without "
+             "F_CFI) and libraries sampled by TLC -simulate over LibGen (3 quick / 160 thorough).",
+        note="Trusted as C02, plus gfortran 12. Not covered: language c subject library, char** rows. With F_CFI the "
+             "functions of the recorded C05 finding (string + vector/pointer-extent) are left out: Shroud stops on them.",
     ),
     "C10": dict(
         level="model_checking",
@@ -304,10 +309,17 @@ CHECKS = {
              "every positional/keyword split x boundary values, and surplus / unknown / missing / duplicated / wrongly "
              "typed arguments are executed; TLC validates each call: library receives the supplied values and the C++ "
              "defaults, Python gets the result followed by out/inout arguments, a call matching no signature raises "
-             "TypeError/ValueError without reaching the library; SystemError or a crash is a violation.",
+             "TypeError/ValueError without reaching the library; SystemError or a crash is a violation. Rows: scalars, "
+             "bool, enum, strings, pointers/references in/out/inout, list-mode arrays with implied size and "
+             "dimension(n) outputs (incl. empty lists), std::vector in / out, structs as Python classes by value / "
+             "pointer / reference and as results. A second module is the wide member of the TLA+ grammar "
+             "(LibGenPairs: every pairing of two argument kinds, every result kind with every argument kind) with a "
+             "default value on each trailing by-value parameter, every function called with and without it.",
         note="Trusted: TLC, the driver's value encoding, rt/vt.c. Keyword calls that skip an earlier defaulted "
-             "parameter are outside the plan. Reference counts are not measured. Known finding: SystemError for "
-             "multiple std::string results on Python >= 3.10.",
+             "parameter are outside the plan. Reference counts are not measured directly (a borrowed reference shows "
+             "as a crash). Known finding: SystemError for a tuple result containing a std::string on Python >= 3.10. "
+             "Functions of the two recorded C05 findings (Python module does not compile) are dropped from the wide "
+             "module and counted.",
     ),
     "C18": dict(
         level="model_checking",
